@@ -31,7 +31,7 @@ def run(chk):
     L = chk.pick(6, 8)
     E = sum(6 ** k for k in range(L + 1))
     n = vf.NCPU
-    per = (E + n - 1) // n + chk.pick(1250, 62500)        # the whole grid + 2e4 / 1e6 random strings
+    per = (E + n - 1) // n + chk.pick(6000, 62500)        # the whole grid + 2e4 / 1e6 random strings
     safe, why = probe_empty_token(exe)
     args = [] if safe else ['--no-empty-tok']
     r = chk.run('asan', exe, per, args=args)
